@@ -41,6 +41,16 @@ def m_add(it, a, ty, callee):
     return it.binop('Add', a[0], a[1])
 
 
+def m_sub_assign(it, a, ty, callee):
+    it.store(a[0], it.binop('Sub', it.load(a[0]), a[1]))
+    return UNIT
+
+
+def m_add_assign(it, a, ty, callee):
+    it.store(a[0], it.binop('Add', it.load(a[0]), a[1]))
+    return UNIT
+
+
 def m_cmp(op):
     def f(it, a, ty, callee):
         return it.binop(op, deref(it, a[0]), deref(it, a[1]))
@@ -97,12 +107,19 @@ def m_sha256(it, a, ty, callee):
 def install(it):
     A = it.add_model
     A(r'<sha2::Sha256 as sha2::Digest>::digest::<.*>', m_sha256)
+    from .core import m_eq, m_ne
+    A(r'<sha2::digest::hybrid_array::Array<u8, .*> as std::cmp::PartialEq>::eq', m_eq)
+    A(r'<sha2::digest::hybrid_array::Array<u8, .*> as std::cmp::PartialEq>::ne', m_ne)
     A(r'std::time::Duration::from_secs', m_dur_from(10 ** 9))
     A(r'std::time::Duration::from_millis', m_dur_from(10 ** 6))
     A(r'std::time::Duration::from_nanos', m_dur_from(1))
     A(r'std::time::Instant::now', m_now)
     A(r'std::time::Instant::elapsed', m_elapsed)
     A(r'<std::time::Instant as std::ops::Sub<std::time::Duration>>::sub', m_sub)
+    A(r'<std::time::Duration as std::ops::Add>::add', m_add)
+    A(r'<std::time::Duration as std::ops::Sub>::sub', m_sub)
+    A(r'<std::time::Instant as std::ops::SubAssign<std::time::Duration>>::sub_assign', m_sub_assign)
+    A(r'<std::time::Instant as std::ops::AddAssign<std::time::Duration>>::add_assign', m_add_assign)
     A(r'<std::time::Instant as std::ops::Add<std::time::Duration>>::add', m_add)
     A(r'<std::time::Duration as std::cmp::PartialOrd>::gt', m_cmp('Gt'))
     A(r'<std::time::Duration as std::cmp::PartialOrd>::lt', m_cmp('Lt'))
